@@ -267,7 +267,7 @@ func runMaintPassCase(seed uint64, k, idx int) {
 	setup := true
 	// every sixth case: the application closes the node while a bucket refresh has a query in flight; the maintainer
 	// must return, everything it started must end, the API must go on returning (no mpass line for these)
-	closeMid, closeSent := k%6 == 4, false
+	closeMid, closeSent, closeAt := k%6 == 4, false, (k/6)%3
 	type wr struct {
 		to     *net.UDPAddr
 		q      string
@@ -281,10 +281,21 @@ func runMaintPassCase(seed uint64, k, idx int) {
 		}
 		mu.Lock()
 		inSetup := setup
-		if !inSetup && closeMid && !closeSent && m.Q == "find_node" && m.A != nil && m.A.Target != root {
-			// the first query of a bucket refresh is on the wire (nobody answers it): Close now
-			closeSent = true
-			go s.Close()
+		if !inSetup && closeMid && !closeSent {
+			// the first query of a bucket refresh / of the maintainer's bootstrap / of a ping round is on the wire: Close now
+			hit := false
+			switch closeAt {
+			case 0:
+				hit = m.Q == "find_node" && m.A != nil && m.A.Target != root
+			case 1:
+				hit = m.Q == "find_node" && m.A != nil && m.A.Target == root
+			default:
+				hit = m.Q == "ping"
+			}
+			if hit {
+				closeSent = true
+				go s.Close()
+			}
 		}
 		if !inSetup {
 			w := wr{to: to, q: m.Q}
@@ -373,10 +384,30 @@ func runMaintPassCase(seed uint64, k, idx int) {
 	if closeMid {
 		mdone := make(chan struct{})
 		go func() { s.TableMaintainer(); close(mdone) }()
+		// the trigger may never come (no questionable entry to ping, no bootstrap): then the node is closed while the
+		// maintainer pauses between passes - it must return just the same
+		for dl := time.Now().Add(40 * time.Second); time.Now().Before(dl); {
+			mu.Lock()
+			sent := closeSent
+			mu.Unlock()
+			if sent {
+				break
+			}
+			if maintainerSleeping() {
+				mu.Lock()
+				if !closeSent {
+					closeSent = true
+					go s.Close()
+				}
+				mu.Unlock()
+				break
+			}
+			time.Sleep(5 * time.Millisecond)
+		}
 		select {
 		case <-mdone:
 		case <-time.After(15 * time.Second):
-			oracle("C14", "maintainer-does-not-return-after-close:during-bucket-refresh", "case=%d pass k=%d close-sent=%v", idx, k, closeSent)
+			oracle("C14", "maintainer-does-not-return-after-close:during-bucket-refresh", "case=%d pass k=%d close-at=%d close-sent=%v", idx, k, closeAt, closeSent)
 		}
 		api := make(chan struct{})
 		go func() { s.Stats(); s.NumNodes(); s.Nodes(); close(api) }()
@@ -402,7 +433,7 @@ func runMaintPassCase(seed uint64, k, idx int) {
 		if left > 0 {
 			oracle("C14", "maintainer-left-traversal-running", "case=%d pass k=%d: %d goroutines inside the traversal package 4 s after Close during a bucket refresh", idx, k, left)
 		}
-		emit("# mpass %d close-during-refresh close-sent=%v", idx, closeSent)
+		emit("# mpass %d close-during-%s close-sent=%v", idx, []string{"refresh", "bootstrap", "ping-round"}[closeAt], closeSent)
 		s.Close()
 		conn.Close()
 		emit("mend %d => ok", idx)
